@@ -108,7 +108,7 @@ _PROCESS_DEPENDENT = [
 ]
 
 
-SPECIAL_BLOCKS = ("doc", "spell", "deep", "settle", "loader", "overused")
+SPECIAL_BLOCKS = ("doc", "spell", "deep", "settle", "loader", "overused", "boolexpr")
 
 
 def gen_module(rng: random.Random, process_dependent: bool = False, special: bool = False, force: Optional[str] = None) -> str:
@@ -142,6 +142,27 @@ def gen_module(rng: random.Random, process_dependent: bool = False, special: boo
         lines.append(rng.choice([f'z = tuple(["{val}", 1])', f'z = list(("{val}", 2))', f'z = set(["{val}"])', f'w = [x for x in ["{val}"]]\nz = list(w)']))
         lines.append("print(z, " + ", ".join(f"s{i}" for i in range(len(spellings))) + ")")
         text = "\n".join(lines) + "\n"
+        try:
+            ast.parse(text)
+            return text
+        except (SyntaxError, ValueError):
+            pass
+    if force == "boolexpr" or (force is None and special and rng.random() < 0.12):
+        # redundant boolean expressions over opaque operands (calls): the symbolic simplifier rewrites
+        # them, and in which order it emits the operands must not depend on anything but the text
+        funcs = []
+        for i in range(rng.randint(2, 4)):
+            ops_ = [f"{rng.choice(['is_ok', 'has', 'check', 'valid', 'ready'])}_{name('p')}({rng.choice('abc')})" for _ in range(rng.randint(2, 4))]
+            x, y = ops_[0], ops_[1]
+            z = ops_[2] if len(ops_) > 2 else ops_[0]
+            w = ops_[3] if len(ops_) > 3 else ops_[1]
+            shape = rng.choice([
+                "{x} and ({y} or {z}) and {x}", "({x} and {y}) or ({x} and {z})", "not (not {x} or not {y})",
+                "{x} or ({x} and {y}) or {z}", "({x} or {y}) and ({x} or {z}) and {w}", "{x} and {y} and ({z} or {w} or {x})",
+                "not {x} and not {y} or not ({z} or {w})",
+            ]).format(x=x, y=y, z=z, w=w)
+            funcs.append(f"def decide_{name('f')}(a, b, c):\n    return {shape}\n")
+        text = "\n\n".join(funcs) + "\n\nprint(" + ", ".join(f.split("(")[0][4:] for f in funcs) + ")\n"
         try:
             ast.parse(text)
             return text
